@@ -273,6 +273,7 @@ func (pc *parentController) syncRevisionClaims(parentRevisions []*parentRevision
 				continue
 			}
 
+			ck.Names = names
 			children = append(children, ck)
 		}
 
